@@ -162,7 +162,15 @@ G_TensorMeth == OK /\ I.op = "assign" /\ I.e.e = "call" /\ I.e.fn.e = "attr" /\ 
 
 UnboundName_ == Ready /\ Unbound # {} /\ Fail("unbound name " \o (CHOOSE x \in Unbound : TRUE))
 TupleArith_ == Ready /\ Unbound = {} /\ BadI /\ Fail("arithmetic on a tuple coordinate")
-TensorCtor_ == G_TensorCtor /\ NewTensor(I.dst, StrSeq(Kw(I.e, "rank_ids")), <<>>) /\ Adv /\ Rest(<<stack, err, upd>>)
+\* a constructor with an explicit shape records it with the storage (clause ShapeCovers: what is later written into that storage fits)
+TensorCtor_ == /\ G_TensorCtor
+               /\ LET ids == StrSeq(Kw(I.e, "rank_ids"))  sh == Kw(I.e, "shape") IN
+                  IF sh.e = "absent" THEN NewTensor(I.dst, ids, <<>>)
+                  ELSE LET v == Eval(sh, EnvS, store) IN
+                       /\ store' = Append(store, [d |-> Len(ids), m |-> <<>>, shape |-> [j \in 1..Len(v.v) |-> NFloor(v.v[j])]])
+                       /\ objs' = Append(objs, [ids |-> ids, sid |-> Len(store) + 1, pre |-> <<>>])
+                       /\ env' = Bind(env, I.dst, [k |-> "ten", o |-> Len(objs) + 1])
+               /\ Adv /\ Rest(<<stack, err, upd>>)
 CreateCanvas_ == /\ G_CreateCanvas
                 /\ env' = Bind(env, I.dst, [k |-> "canvas", ar |-> [i \in 1..Len(I.e.args) |-> Len(Obj(I.e.args[i]).ids)]])
                 /\ stamps' = {} /\ UNCHANGED <<acts, dup>>          \* a new canvas: stamps are unique per canvas (one per Einsum)
@@ -372,6 +380,13 @@ WithinExtentAtDone == \A i \in 1..Len(Prog.outs) : LET o == Prog.outs[i] IN
     (o.var \in DOMAIN env /\ env[o.var].k = "ten") =>
        \A p \in DOMAIN store[objs[env[o.var].o].sid].m :
           \A j \in 1..Len(p) : Len(p[j]) = 1 => (p[j][1] >= 0 /\ p[j][1] < Cfg[o.ids[j]] * SCALE)
+\* explicit shapes (C11): every coordinate written at a rank of a tensor constructed with shape=[...] is below the declared extent of that
+\* rank; at a rank of tuple coordinates (a flattened rank) there are at most that many distinct coordinates
+ShapeCoversAtDone == \A sid \in 1..Len(store) : "shape" \in DOMAIN store[sid] =>
+    LET m == store[sid].m  sh == store[sid].shape IN
+    \A j \in 1..Len(sh) : LET cs == {p[j] : p \in {q \in DOMAIN m : Len(q) >= j}} IN
+        IF \A c \in cs : Len(c) = 1 THEN \A c \in cs : c[1] >= 0 /\ c[1] < sh[j] * SCALE
+        ELSE Cardinality(cs) <= sh[j]
 Concat(ids) == FoldLeft(LAMBDA a, b : a \o b, "", ids)
 NamesTruthfulAtDone == \A i \in 1..Len(Prog.tvars) : LET tv == Prog.tvars[i] IN
     (tv.var \in DOMAIN env /\ env[tv.var].k = "ten") => Concat(objs[env[tv.var].o].ids) = tv.spelled
@@ -383,7 +398,12 @@ RollUpOK == RollUpHolds(MetD) /\ ComponentTimesHold(MetD, Prog.arch)
 (* invariant Verdict, which prints one line per failing terminal state naming every failing      *)
 (* clause (a failing batch must not stop at the first program).  The replay configuration        *)
 (* checks the predicates as ordinary invariants to obtain a TLC error trace.                     *)
-InputsUnchanged == \A i \in 1..Len(Prog.inputs) : store[i] = InputStore(i) /\ objs[i].ids = Prog.inputs[i].ids
+\* the variables the user supplied still denote the user's tensors: the same storage, whole, under the same rank ids (the compiler
+\* does rebind them, to Tensor.fromFiber(...) of their own root fiber, which is the same tensor)
+InputVarsIntact == \A i \in 1..Len(Prog.inputs) : LET x == Prog.inputs[i].var IN
+    (x \in DOMAIN env /\ \A j \in 1..Len(Prog.outs) : Prog.outs[j].name # Prog.inputs[i].name) => /\ env[x].k = "ten" /\ objs[env[x].o].sid = i /\ objs[env[x].o].pre = <<>> /\ objs[env[x].o].ids = Prog.inputs[i].ids
+InputsUnchanged == /\ \A i \in 1..Len(Prog.inputs) : store[i] = InputStore(i) /\ objs[i].ids = Prog.inputs[i].ids
+                   /\ InputVarsIntact
 OutputNamed(o) == /\ o.var \in DOMAIN env /\ env[o.var].k = "ten"
                   /\ objs[env[o.var].o].ids = o.ids
                   /\ \A p \in DOMAIN Rel(store, objs[env[o.var].o]) : \A i \in 1..Len(p) : Len(p[i]) = 1 /\ p[i][1] % SCALE = 0
@@ -397,6 +417,7 @@ Failing ==
      IF ~OutputValues THEN "OutputCorrect" ELSE "",
      IF ~InputsUnchanged THEN "InputsUnchanged" ELSE "",
      IF ~WithinExtentAtDone THEN "WithinExtent" ELSE "",
+     IF ~ShapeCoversAtDone THEN "ShapeCovers" ELSE "",
      IF ~NamesTruthfulAtDone THEN "NamesTruthful" ELSE "",
      IF mp.lie # "" THEN "NamesTruthful: " \o mp.lie \o " is used while its rank ids spell something else" ELSE "",
      IF mp.bad # "" THEN "Protocol: " \o mp.bad ELSE "",
